@@ -164,6 +164,24 @@ func Run(cs Case, c *vrt.Ctx) {
 			c.Fail("parsed-differs-from-built", "NewScript", fmt.Sprintf("%s: built %s gives %v, read from that text it prints as %s and gives %v", desc, s.String(), got, parsed.String(), pgot), "op:"+cs.Eq.Op)
 		}
 	}
+	// and read as part of a path, which has a front-end of its own for filters
+	if !usesRoot(cs.Eq) {
+		var px jp.Expr
+		var pxerr error
+		ftext := "$" + cs.Eq.Build().Filter().String()
+		if pv, stack := vrt.Catch(func() { px, pxerr = jp.ParseString(ftext) }); pv != nil {
+			c.Fail("panic", "jp.ParseString", fmt.Sprintf("%v at %s; %s", pv, stack, desc), "op:"+cs.Eq.Op)
+		} else if pxerr != nil {
+			c.Class("text-does-not-parse(C14)")
+		} else {
+			var psel []any
+			if pv, stack := vrt.Catch(func() { psel = px.Get(holder) }); pv != nil {
+				c.Fail("panic", "Get(parsed filter)", fmt.Sprintf("%v at %s; %s", pv, stack, desc), "op:"+cs.Eq.Op)
+			} else if (len(psel) == 1) != got {
+				c.Fail("parsed-differs-from-built", "jp.ParseString", fmt.Sprintf("%s: built %s gives %v, the path %s read from text prints as %s and selects %d of 1", desc, s.String(), got, ftext, px.String(), len(psel)), "op:"+cs.Eq.Op)
+			}
+		}
+	}
 	// determinism
 	if again := s.Match(in); again != got {
 		c.Fail("nondeterministic", "Script.Match", fmt.Sprintf("%s: %v then %v", desc, got, again))
